@@ -18,6 +18,8 @@ def check(run):
     ec.run_family_js(run, 'C03-js-numeric-group-keys', 'Q_C03key', 'R_numk', maxA=3)
     ec.run_family(run, 'C03-mixed-width-numbers', 'Q_C03med', 'R_numw', maxA=3)
     ec.run_family_js(run, 'C03-js-mixed-width-numbers', 'Q_C03med', 'R_numw', maxA=3)
+    ec.run_family(run, 'C03-constant-column-falsy-first-value', 'Q_C03const', 'R_keyse', maxA=3)
+    ec.run_family_js(run, 'C03-js-constant-column-falsy-first-value', 'Q_C03const', 'R_keyse', maxA=3)
     ec.run_family(run, 'C03-numeric-group-keys', 'Q_C03key', 'R_numk', maxA=3)
     ec.run_family(run, 'C03-numeric-string-group-keys', 'Q_C03keys', 'R_numks', maxA=3)
     ec.run_family(run, 'C03-int-column', 'Q_C03num', 'R_numi', maxA=2 if quick else 3)
